@@ -10,6 +10,7 @@ import inspect
 import io
 import keyword
 import logging
+import operator
 import sys
 import time
 import traceback
@@ -85,6 +86,25 @@ TRIGGER_KWARGS = {
     "var_name",
     "value",
     "webhook_id",
+}
+
+#
+# In-place operators used by augmented assignment (a += b mutates a list in place, like Python)
+#
+AUG_ASSIGN_OPS = {
+    ast.Add: operator.iadd,
+    ast.Sub: operator.isub,
+    ast.Mult: operator.imul,
+    ast.MatMult: operator.imatmul,
+    ast.Div: operator.itruediv,
+    ast.Mod: operator.imod,
+    ast.Pow: operator.ipow,
+    ast.LShift: operator.ilshift,
+    ast.RShift: operator.irshift,
+    ast.BitOr: operator.ior,
+    ast.BitXor: operator.ixor,
+    ast.BitAnd: operator.iand,
+    ast.FloorDiv: operator.ifloordiv,
 }
 
 WEBHOOK_METHODS = {
@@ -1431,10 +1451,25 @@ class AstEval:
 
     async def ast_augassign(self, arg):
         """Execute augmented assignment statement (lhs <BinOp>= value)."""
+        inplace_op = AUG_ASSIGN_OPS.get(type(arg.op))
+        if inplace_op is None:
+            return await self.ast_not_implemented(arg.op)
+        if isinstance(arg.target, ast.Subscript):
+            # evaluate the container and the index only once
+            var = await self.aeval(arg.target.value)
+            idx = await self.aeval(arg.target.slice)
+            var[idx] = inplace_op(var[idx], await self.aeval(arg.value))
+            return
+        if isinstance(arg.target, ast.Attribute):
+            target = await self.aeval(arg.target)
+            if isinstance(target, EvalAttrSet):
+                # attribute of an object: evaluate the object only once
+                target.setattr(inplace_op(target.getattr(), await self.aeval(arg.value)))
+                return
         arg.target.ctx = ast.Load()
-        new_val = await self.aeval(ast.BinOp(left=arg.target, op=arg.op, right=arg.value))
+        cur_val = await self.aeval(arg.target)
         arg.target.ctx = ast.Store()
-        await self.recurse_assign(arg.target, new_val)
+        await self.recurse_assign(arg.target, inplace_op(cur_val, await self.aeval(arg.value)))
 
     async def ast_annassign(self, arg):
         """Execute type hint assignment statement and track __annotations__."""
